@@ -270,7 +270,7 @@ def make_input(kind, users, ants, n):
 def pathloss_value(tag, shape):
     """deterministic path-loss values; tag 'v1'/'v2' (scalar or matrix)"""
     if shape is None:
-        return {"v1": 0.25, "v2": 0.04, "tiny": 1e-12, "one": 1.0}[tag]
+        return {"v1": 0.25, "v2": 0.04, "tiny": 1e-12, "one": 1.0, "zero": 0.0, "izero": 0, "ione": 1}[tag]
     r, t = shape
     m = np.empty((r, t), dtype=float)
     for i in range(r):
@@ -283,16 +283,21 @@ def pathloss_value(tag, shape):
                 m[i, j] = 1e-12 * (1 + i * t + j)
             elif tag == "one":
                 m[i, j] = 1.0 if (i + j) % 2 == 0 else 1e-6
+            elif tag in ("zero", "izero", "ione"):
+                m[i, j] = (0.0 if (i + j) % 2 == 0 else 1.0) if tag != "ione" else 1.0
             else:
                 raise ValueError(tag)
-    return m
+    return m.astype(np.int64) if tag in ("izero", "ione") else m
 
 
 class Sut:
     """system under test + the little the reference model has to know"""
 
-    def __init__(self, case):
+    def __init__(self, case, shared=None, index=0):
+        """shared: pieces of an earlier Sut of the same scenario that this object is built on
+        ({"gen": generator object, "cnt": its sample-counter cell} and/or {"profile_obj": profile})"""
         from pyphysim.channels import fading, fading_generators as fg, multiuser, singleuser
+        shared = shared or {}
         self.case = case
         w = case["wrapper"]
         self.w = w
@@ -309,14 +314,20 @@ class Sut:
         g = case["gen"]
         self.jakes = g[0] == "jakes"
         self.Fd = float(g[1]) if self.jakes else None
-        seed = int(case["seed"])
+        seed = int(case["seed"]) + 50 * index
         np.random.seed(seed)        # owns Rayleigh taps and the phases of "similar" Jakes generators
         gshape = self.ant if (w in ("tdl", "tdlmimo", "su")) else None
-        if self.jakes:
+        self._cnt = shared.get("cnt", [0])        # fading samples consumed (shared with the generator)
+        if "gen" in shared:
+            gen = shared["gen"]          # a "similar" generator derived from the first object's one
+        elif self.jakes:
             gen = fg.JakesSampleGenerator(Fd=self.Fd, Ts=self.Ts, L=JAKES_L, shape=gshape,
                                           RS=np.random.RandomState(seed + 1))
         else:
             gen = fg.RayleighSampleGenerator(shape=gshape)
+        if case.get("objects") == "similar_generator" and index == 0:
+            # derived before any channel takes the generator over (as MuChannel does for its links)
+            self.similar_gen = gen.get_similar_fading_generator()
         delays, powers = profile_arrays(case)
         self.ref_idx, self.ref_pow = ref_discretize(delays, powers, self.Ts)
         self.memory = self.ref_idx[-1]
@@ -325,6 +336,8 @@ class Sut:
         p_arg, d_arg = powers.copy(), delays.copy()      # the caller's arrays (checked, then overwritten)
         if form == "arrays":
             kw = dict(tap_powers_dB=p_arg, tap_delays=d_arg)
+        elif "profile_obj" in shared:
+            kw = dict(channel_profile=shared["profile_obj"])
         elif form == "object":
             kw = dict(channel_profile=(cost_profile(case["profile"][1]) if case["profile"][0] == "cost259"
                                        else fading.TdlChannelProfile(p_arg, d_arg)))
@@ -333,6 +346,8 @@ class Sut:
                       .get_discretize_profile(self.Ts))
         else:
             raise ValueError(form)
+        self.gen_obj = gen
+        self.profile_obj = kw.get("channel_profile")
         Ts_arg = self.Ts if case.get("pass_Ts", True) else None
         if w == "tdl":
             ch = fading.TdlChannel(gen, Ts=Ts_arg, **kw)
@@ -372,7 +387,7 @@ class Sut:
         for i in range(self.N[0]):
             for j in range(self.N[1]):
                 self.pl[(i, j)] = None
-        self.counter = 0                          # fading samples consumed by transmissions
+        self.results = []                         # (X, outputs) of the transmissions so far
         self.jk = {}                              # (i,j) -> (phi, psi, t0) read back from the generator
         self.read_back_phases(first=True)
 
@@ -385,6 +400,55 @@ class Sut:
             gobj = self._generator(i, j)
             t0 = float(gobj._current_time) if first else self.jk[(i, j)][2]
             self.jk[(i, j)] = (np.array(gobj._phi_l, dtype=float), np.array(gobj._psi_l, dtype=float), t0)
+
+    @property
+    def counter(self):
+        return self._cnt[0]
+
+    @counter.setter
+    def counter(self, v):
+        self._cnt[0] = v
+
+    def digest(self):
+        """everything a later transmission depends on, as bytes (seam read-back): fading time and
+        phases of every link, the stored last response, direction, path loss, the global numpy RNG"""
+        import hashlib
+        h = hashlib.sha1()
+
+        def add(x):
+            if isinstance(x, np.ndarray):
+                h.update(str((x.shape, x.dtype)).encode())
+                h.update(np.ascontiguousarray(x).tobytes())
+            else:
+                h.update(repr(x).encode())
+        for (i, j) in sorted(self.pl):
+            g = self._generator(i, j)
+            add(g.shape)
+            if self.jakes:
+                add(float(g._current_time)); add(np.asarray(g._phi_l)); add(np.asarray(g._psi_l))
+            t = self._tdl(i, j)
+            r = t._last_impulse_response
+            add(None if r is None else (id(r), id(r.channel_profile)))
+            if r is not None:
+                add(np.asarray(r.tap_values_sparse))
+            add(t._switched_direction)
+            add(np.asarray(t.channel_profile.tap_delays)); add(np.asarray(t.channel_profile.tap_powers_dB))
+            if self.family != "tdl":
+                su = self.ch if self.family == "su" else self.ch._su_siso_channels[i, j]
+                add(su._pathloss_value)
+        if self.family == "mu":
+            pm = self.ch._pathloss_matrix
+            add(None if pm is None else np.asarray(pm))
+        st = np.random.get_state()
+        add(st[1]); add(st[2:])
+        return h.hexdigest()
+
+    def _tdl(self, i, j):
+        if self.family == "tdl":
+            return self.ch
+        if self.family == "su":
+            return self.ch._tdlchannel
+        return self.ch._su_siso_channels[i, j]._tdlchannel
 
     def _generator(self, i, j):
         if self.family == "tdl":
@@ -548,6 +612,34 @@ def jakes_expected(sut, link, sample_indexes):
     if pl is not None:
         h = h * math.sqrt(pl)
     return h
+
+
+def check_response_api(sut, resp, chk, base, case):
+    """the other public views of a reported TdlImpulseResponse agree with its sparse taps"""
+    from pyphysim.channels import fading
+    vals = np.array(resp.tap_values_sparse)
+    if resp.Ts != sut.Ts or not np.array_equal(np.asarray(resp.tap_delays_sparse),
+                                               np.array(sut.ref_idx) * sut.Ts):
+        chk.fail(base + ("reported_response_Ts_or_delays",), case)
+    tdl_profile = sut._tdl(*sorted(sut.pl)[0]).channel_profile
+    if resp.channel_profile is not tdl_profile:
+        chk.fail(base + ("reported_response_profile_is_not_the_channel_profile",), case)
+    for scaled, what in ((resp * 2.0, "__mul__"), (2.0 * resp, "__rmul__")):
+        if (not isinstance(scaled, fading.TdlImpulseResponse) or scaled is resp
+                or not np.array_equal(np.asarray(scaled.tap_values_sparse), 2.0 * vals)
+                or not np.array_equal(np.asarray(resp.tap_values_sparse), vals)
+                or scaled.channel_profile is not resp.channel_profile):
+            chk.fail(base + ("TdlImpulseResponse." + what,), case)
+    a, b = resp * 1.0, resp * 0.5
+    cat = fading.TdlImpulseResponse.concatenate_samples([a, b, a])
+    if (not np.array_equal(np.asarray(cat.tap_values_sparse), np.concatenate([vals, 0.5 * vals, vals], axis=-1))
+            or cat.num_samples != 3 * vals.shape[-1] or fading.TdlImpulseResponse.concatenate_samples([a]) is not a):
+        chk.fail(base + ("TdlImpulseResponse.concatenate_samples",), case)
+    try:
+        fading.TdlImpulseResponse.concatenate_samples([])
+        chk.fail(base + ("TdlImpulseResponse.concatenate_samples", "empty_list_accepted"), case)
+    except ValueError:
+        pass
 
 
 def check_jakes(sut, link, resp, samples, op, chk, case):
@@ -779,6 +871,8 @@ def transmit(sut, step, chk, case, results):
                     exp_trunc[v] += ref_freq(idx, C, X[u], int(step["fft"]), bins, blocks, True)
             if sut.jakes:
                 check_jakes(sut, link, resp, samples, op, chk, case)
+            if sut.ntx == 0 or sut.ntx == 2:
+                check_response_api(sut, resp, chk, base, case)
             reports.append((link, resp))
     xmax = float(np.max(np.abs(X))) if X.size else 0.0
     terms = len(sut.ref_idx) * ui * ai + 2
@@ -856,6 +950,16 @@ def run_scenario(case, chk):
     """build the channel, run the history, compare every transmission"""
     chk.count("scenarios")
     sut = Sut(case)
+    suts = [sut]
+    rel = case.get("objects")
+    if rel is not None:
+        # a second live object, used alternately with the first (steps carry "obj")
+        shared = {}
+        if rel == "similar_generator":
+            shared = {"gen": sut.similar_gen}
+        elif rel == "same_profile_object":
+            shared = {"profile_obj": sut.profile_obj}
+        suts.append(Sut(case, shared=shared, index=1))
     chk.outcome("delay_sets_transmitted", tuple(sut.ref_idx))
     # profile wiring: the channel's discretized profile equals the reference discretization
     prof = sut.ch.channel_profile
@@ -869,11 +973,12 @@ def run_scenario(case, chk):
         return
     if not sut.profile_args_intact:
         chk.fail(("constructor", sut.family, "profile_arrays_mutated"), case)
-    results = []
     kinds = []
     for step in case["history"]:
         op = step["op"]
         kinds.append(op)
+        sut = suts[int(step.get("obj", 0))]
+        results = sut.results
         if op in ("time", "freq"):
             if step.get("x", [None])[0] == "lincomb":
                 (X1, _), (X2, _) = results[-2], results[-1]
@@ -922,6 +1027,11 @@ def run_scenario(case, chk):
                 val = None if tag is None else pathloss_value(tag, None)
                 sut.ch.set_pathloss(val)
                 sut.pl[(0, 0)] = val
+        elif op == "bad_call":
+            chk.count("eval_error_paths")
+            if not bad_call(sut, step["what"], chk, case):
+                chk.count("scenarios_cut_short_by_a_reported_defect")
+                break
         elif op == "switch":
             chk.count("eval_events")
             sut.ch.switched_direction = bool(step["value"])
@@ -973,7 +1083,180 @@ def run_scenario(case, chk):
     chk.outcome("history_shapes", tuple(kinds))
 
 
+BAD_CALLS = ("time_few_streams", "time_many_streams", "time_1d_for_mimo", "time_2d_for_siso",
+             "freq_not_multiple", "freq_index_out_of_range", "freq_negative_index_out_of_range",
+             "freq_many_streams", "users_few", "users_many", "pathloss_shape_small", "pathloss_shape_big",
+             "pathloss_value_gt1", "pathloss_negative", "switched_not_bool")
+
+
+def bad_call_applicable(what, family, mimo, N, ant, switched):
+    """is the invalid call `what` constructible for this configuration?"""
+    R, T = N
+    ui = R if switched else T
+    ai = 1 if not mimo else (ant[0] if switched else ant[1])
+    if what in ("time_few_streams",):
+        return family != "mu" and mimo and ai >= 2
+    if what in ("time_many_streams", "freq_many_streams"):
+        return family != "mu" and mimo
+    if what == "time_1d_for_mimo":
+        return family != "mu" and mimo and ai >= 2
+    if what == "time_2d_for_siso":
+        return family != "mu" and not mimo
+    if what in ("users_few",):
+        return family == "mu" and ui >= 2
+    if what == "users_many":
+        return family == "mu"
+    if what.startswith("pathloss_shape") or what == "pathloss_value_gt1":
+        return family == "mu"
+    if what == "pathloss_negative":
+        return family == "su"
+    return True
+
+
+def bad_call(sut, what, chk, case):
+    """an invalid call must raise and leave the channel exactly as it was.  -> False when it does not"""
+    ui, ai, uo, ao = sut.dims()
+    if not bad_call_applicable(what, sut.family, sut.mimo, sut.N, sut.ant, sut.switched):
+        return True
+    before = sut.digest()
+    ch = sut.ch
+
+    def streams(users, ants, n):
+        X = make_input(["expo"], users, ants, n)
+        if sut.family == "mu":
+            return X if sut.mimo else X[:, 0, :]
+        return X[0] if sut.mimo else X[0, 0]
+
+    if what == "time_few_streams":
+        call = lambda: ch.corrupt_data(streams(1, ai - 1, 4))
+    elif what == "time_many_streams":
+        call = lambda: ch.corrupt_data(streams(1, ai + 1, 4))
+    elif what == "freq_many_streams":
+        call = lambda: ch.corrupt_data_in_freq_domain(streams(1, ai + 1, 4), 4)
+    elif what == "time_1d_for_mimo":
+        call = lambda: ch.corrupt_data(make_input(["expo"], 1, 1, 6)[0, 0])
+    elif what == "time_2d_for_siso":
+        call = lambda: ch.corrupt_data(make_input(["expo"], 1, 2, 4)[0])
+    elif what == "freq_not_multiple":
+        call = lambda: ch.corrupt_data_in_freq_domain(streams(ui, ai, 5), 4, [0, 1, 3])
+    elif what == "freq_index_out_of_range":
+        call = lambda: ch.corrupt_data_in_freq_domain(streams(ui, ai, 4), 4, [1, 4])
+    elif what == "freq_negative_index_out_of_range":
+        call = lambda: ch.corrupt_data_in_freq_domain(streams(ui, ai, 4), 4, np.array([1, -5]))
+    elif what == "users_few":
+        call = lambda: ch.corrupt_data(streams(ui - 1, ai, 4))
+    elif what == "users_many":
+        call = lambda: ch.corrupt_data_in_freq_domain(streams(ui + 1, ai, 4), 4)
+    elif what == "pathloss_shape_small":
+        R, T = sut.N
+        call = lambda: ch.set_pathloss(np.full((R - 1, T) if R > 1 else (R, T - 1), 0.5))
+    elif what == "pathloss_shape_big":
+        call = lambda: ch.set_pathloss(np.full((sut.N[0] + 1, sut.N[1] + 1), 0.5))
+    elif what == "pathloss_value_gt1":
+        def call():
+            m = np.full(sut.N, 0.5)
+            m[-1, -1] = 2.0
+            ch.set_pathloss(m)
+    elif what == "pathloss_negative":
+        call = lambda: ch.set_pathloss(-0.25)
+    elif what == "switched_not_bool":
+        def call():
+            ch.switched_direction = 1
+    else:
+        raise ValueError(what)
+    raised = None
+    try:
+        call()
+    except Exception as e:  # noqa
+        raised = e
+    chk.outcome("error_paths", (what, sut.family, sut.mimo))
+    ok = True
+    if raised is None:
+        chk.fail(("error_path", what, "no_exception"), case,
+                 observed="the invalid call returned normally", expected="an exception")
+        ok = False
+    if sut.digest() != before:
+        chk.fail(("error_path", what, "state_changed_by_failed_call"), case,
+                 observed="fading time / last response / path loss / direction / RNG state differ "
+                          "(%s)" % (("after %s" % type(raised).__name__) if raised is not None else "no exception"),
+                 expected="an invalid call leaves the channel exactly as it was")
+        ok = False
+    return ok
+
+
+def gen_digest(g):
+    return (g.shape, getattr(g, "_current_time", None),
+            None if getattr(g, "_phi_l", None) is None else np.asarray(g._phi_l).tobytes(),
+            None if getattr(g, "_psi_l", None) is None else np.asarray(g._psi_l).tobytes())
+
+
+def e_cases(tier):
+    for what in ("discretized_profile_Ts_conflict", "Ts_conflict_with_generator", "response_needs_discretized_profile",
+                 "padding_needs_discretized_profile", "mimo_channel_needs_2d_generator_shape",
+                 "no_response_before_first_transmission"):
+        for gen in GENS:
+            for w in (("tdl", "su", "mu") if what in ("discretized_profile_Ts_conflict", "Ts_conflict_with_generator",
+                                                      "no_response_before_first_transmission") else ("tdl",)):
+                yield {"part": "E", "what": what, "gen": list(gen), "wrapper": w, "seed": base_seed()}
+
+
+def check_ctor_error(case, chk):
+    """constructor / accessor error paths: the call raises the documented error and leaves the objects
+    it was given (generator, profile) exactly as they were"""
+    from pyphysim.channels import fading, fading_generators as fg, multiuser, singleuser
+    chk.count("eval_error_paths")
+    what, w = case["what"], case["wrapper"]
+    np.random.seed(case["seed"])
+    Ts = 1e-3
+    if case["gen"][0] == "jakes":
+        gen = fg.JakesSampleGenerator(Fd=case["gen"][1], Ts=Ts, L=JAKES_L, RS=np.random.RandomState(case["seed"]))
+    else:
+        gen = fg.RayleighSampleGenerator()
+    delays, powers = raw_profile([0, 6, 6, 12], [0.0, -3.0, -3.0, -10.0], Ts)
+    raw = fading.TdlChannelProfile(powers, delays)
+    disc = raw.get_discretize_profile(Ts)
+    other = raw.get_discretize_profile(2 * Ts)
+    mk = {"tdl": lambda **kw: fading.TdlChannel(gen, **kw), "su": lambda **kw: singleuser.SuChannel(gen, **kw),
+          "mu": lambda **kw: multiuser.MuChannel(2, gen, **kw)}[w]
+    before = (gen_digest(gen), np.array(other.tap_delays), np.array(disc.tap_powers_dB), disc.Ts, other.Ts, raw.Ts)
+    exc = RuntimeError
+    if what == "discretized_profile_Ts_conflict":
+        if case["gen"][0] != "jakes":
+            call = lambda: mk(channel_profile=other, Ts=Ts)
+        else:
+            call = lambda: mk(channel_profile=other)
+    elif what == "Ts_conflict_with_generator":
+        if case["gen"][0] != "jakes":
+            return                  # a Rayleigh generator has no sampling interval
+        call = lambda: mk(tap_powers_dB=powers, tap_delays=delays, Ts=2 * Ts)
+    elif what == "response_needs_discretized_profile":
+        call = lambda: fading.TdlImpulseResponse(np.ones((4, 2), dtype=complex), raw)
+    elif what == "padding_needs_discretized_profile":
+        call = lambda: raw.num_taps_with_padding
+    elif what == "mimo_channel_needs_2d_generator_shape":
+        call = lambda: fading.TdlMimoChannel(gen, channel_profile=disc)
+    else:
+        ch = mk(channel_profile=disc, Ts=Ts)
+        before = (gen_digest(gen), np.array(other.tap_delays), np.array(disc.tap_powers_dB), disc.Ts, other.Ts, raw.Ts)
+        call = (lambda: ch.get_last_impulse_response(1, 0)) if w == "mu" else ch.get_last_impulse_response
+    try:
+        call()
+        chk.fail(("error_path", what, "no_exception"), case, expected=exc.__name__)
+    except exc:
+        pass
+    after = (gen_digest(gen), np.array(other.tap_delays), np.array(disc.tap_powers_dB), disc.Ts, other.Ts, raw.Ts)
+    same = all((np.array_equal(a, b) if isinstance(a, np.ndarray) else a == b) for a, b in zip(before, after))
+    if not same:
+        chk.fail(("error_path", what, "state_changed_by_failed_call"), case,
+                 observed="the generator / profile objects handed to the failed call changed")
+    chk.outcome("error_paths", (what, w))
+
+
 def run_case(case, chk):
+    if case["part"] == "E":
+        with chk.guard(("error_path", case["what"]), case):
+            check_ctor_error(case, chk)
+        return
     if case["part"] == "D":
         with chk.guard(("discretize",), case):
             check_discretization(case, chk)
@@ -1033,9 +1316,11 @@ def scen(family, wrapper, profile, Ts, gen, history, ant=None, N=None, switched=
     return c
 
 
-def time_inputs(streams, n):
+def time_inputs(streams, n, tier="thorough"):
     for s in range(streams):
         for pos in range(n):
+            if tier == "quick" and s > 0 and pos not in (0, n - 1):
+                continue        # quick: every position on stream 0, first and last on the others
             yield ["impulse", s, pos]
     yield ["ramp"]
     yield ["expo"]
@@ -1054,7 +1339,7 @@ def fam_time(tier):
                     for gen in (GENS if (Ts == 1.0 or tier == "thorough") else (GENS[0], GENS[2])):
                         nin = 1 if ant is None else (ant[0] if sw else ant[1])
                         for n in ((1, 2, 5, 8) if (Ts == 1.0 or tier == "thorough") else (1, 5)):
-                            for x in time_inputs(nin, n):
+                            for x in time_inputs(nin, n, tier):
                                 w = "tdl" if ant != (3, 2) else "tdlmimo"
                                 yield scen("time", w, prof, Ts, gen, [{"op": "time", "x": x, "n": n}],
                                            ant=ant, switched=sw)
@@ -1283,6 +1568,9 @@ P_WIDE = ["custom", [0, 4, 12], [0.0, -70.0, -150.0]]
 P_WIDEC = ["custom", [2, 1, 8], [0.0, -150.0, -100.0]]       # collision of taps 150 dB apart
 
 
+P_ZERO = ["custom", [0, 4, 8], [0.0, float("-inf"), -3.0]]     # a zero-power tap
+
+
 def fam_events(tier):
     """other public methods that touch shared state, as history events between transmissions"""
     ta = {"op": "time", "x": ["expo"], "n": 5}
@@ -1302,18 +1590,96 @@ def fam_events(tier):
         ("mu", None, (2, 3), None, [sw1, spl("v1")]),
         ("mumimo", (2, 3), 2, "v1", [sw1, spl(None)]),
     ]
+    bad = lambda w: {"op": "bad_call", "what": w}
     for (w, ant, N, pl, events) in configs:
-        for txs in ([ta, fa, fb], [fa, fb, ta]):
-            for depth in (1, 2):
-                for evs in itertools.product(range(len(events)), repeat=depth):
+        fam = "mu" if w.startswith("mu") else ("su" if w.startswith("su") else "tdl")
+        NN = (1, 1) if N is None else ((N, N) if isinstance(N, int) else tuple(N))
+        # the invalid calls that can be built for this configuration in either direction
+        errs = [bad(b) for b in BAD_CALLS
+                if any(bad_call_applicable(b, fam, ant is not None, NN, ant, d) for d in (False, True))]
+        if not any(e.get("op") == "switch" and e["value"] is False for e in events):
+            events = events + [sw0]
+        nS = len(events)
+        alpha = events + errs
+        for txs in ([ta, fa, fb, ta], [fa, fb, ta, fb]):
+            for depth in (1, 2, 3):
+                if depth == 3 and tier != "thorough":
+                    continue
+                for evs in itertools.product(range(len(alpha)), repeat=depth):
+                    nerr = sum(1 for e in evs if e >= nS)
+                    if depth >= 2 and nerr == depth:
+                        continue            # at least one state-changing event among several
                     hist = [dict(txs[0])]
                     for k, e in enumerate(evs):
-                        hist.append(dict(events[e]))
+                        hist.append(dict(alpha[e]))
                         hist.append(dict(txs[k + 1]))
-                    for start_sw in (False, True):
-                        for gen in GENS:
+                    cheap = tier != "thorough" and depth >= 2 and nerr > 0
+                    if tier != "thorough" and depth >= 2 and txs[0] is not ta:
+                        continue
+                    for start_sw in ((False,) if cheap else (False, True)):
+                        for gen in (GENS[:1] if cheap else GENS):
                             yield scen("events", w, P_MIX, 1e-3 if gen[0] == "jakes" and gen[1] else 1.0, gen,
                                        with_initial_pathloss(pl, hist), ant=ant, N=N, switched=start_sw)
+
+
+def fam_multi(tier):
+    """two live objects used alternately: separate, built on the same profile object, or the second on
+    a generator obtained with get_similar_fading_generator() from the first one's.  Each must behave
+    like a lone object (own fading time, phases, direction, path loss)."""
+    ta = {"op": "time", "x": ["expo"], "n": 5}
+    tb = {"op": "time", "x": ["ramp"], "n": 3}
+    fa = {"op": "freq", "fft": 8, "sel": np.array([7, 0, 2]), "blocks": 2, "x": ["ramp"]}
+    fb = {"op": "freq", "fft": 4, "sel": None, "blocks": 1, "x": ["expo2"]}
+    spl = lambda t: {"op": "set_pathloss", "value": t}
+    sw1 = {"op": "switch", "value": True}
+    configs = [("tdl", None, None, None), ("tdl", (2, 3), None, None), ("tdlmimo", (3, 2), None, None),
+               ("su", None, None, "v1"), ("sumimo", (2, 2), None, "v1"), ("mu", None, 2, "v1"),
+               ("mumimo", (1, 2), (2, 1), None)]
+    orders = [[0, 1, 0, 1, 0, 1], [0, 0, 1, 1, 0, 1], [1, 0, 0, 1, 1, 0]]
+    steps = [ta, fa, tb, fb, fa, ta]
+    for (w, ant, N, pl) in configs:
+        for rel in ("separate", "same_profile_object", "similar_generator"):
+            for order in orders:
+                for gen in GENS:
+                    hist = []
+                    if pl is not None:
+                        hist.append(dict(spl(pl), obj=0))        # path loss on object 0 only
+                    for k, (o, st) in enumerate(zip(order, steps)):
+                        hist.append(dict(st, obj=o))
+                        if k == 2:
+                            hist.append(dict(sw1, obj=1))        # direction switched on object 1 only
+                            if pl is not None:
+                                hist.append(dict(spl("v2"), obj=1))
+                    for form in (("object", "discretized") if rel == "same_profile_object" else ("arrays",)):
+                        yield scen("multi", w, P_MIX, 1e-3 if gen[0] == "jakes" and gen[1] else 1.0, gen, hist,
+                                   ant=ant, N=N, objects=rel, profile_form=form)
+
+
+def fam_long(tier):
+    """effects from the third step on: 8 transmissions with an event after each"""
+    ta = {"op": "time", "x": ["expo"], "n": 5}
+    tb = {"op": "time", "x": ["ramp"], "n": 1}
+    fa = {"op": "freq", "fft": 8, "sel": np.array([7, 0, 2]), "blocks": 2, "x": ["ramp"]}
+    fb = {"op": "freq", "fft": 8, "sel": np.array([1, 5, 3]), "blocks": 1, "x": ["expo2"]}
+    fc = {"op": "freq", "fft": 4, "sel": None, "blocks": 3, "x": ["expo"]}
+    txs = [ta, fa, fb, tb, fc, ta, fb, tb]
+    bad = lambda w: {"op": "bad_call", "what": w}
+    ev_all = [{"op": "switch", "value": True}, bad("freq_index_out_of_range"), {"op": "set_pathloss", "value": "v2"},
+              bad("time_many_streams"), {"op": "switch", "value": False}, bad("users_few"),
+              {"op": "set_pathloss", "value": None}, bad("freq_not_multiple")]
+    for (w, ant, N, pl) in wrapper_configs():
+        fam = "mu" if w.startswith("mu") else ("su" if w.startswith("su") else "tdl")
+        for rot in range(0, 8, 2 if tier == "quick" else 1):
+            hist = []
+            for k in range(8):
+                hist.append(dict(txs[(k + rot) % 8]))
+                e = ev_all[(k + rot) % 8]
+                if e["op"] == "set_pathloss" and fam == "tdl":
+                    continue
+                hist.append(dict(e))
+            for gen in GENS:
+                yield scen("long", w, P_12, 1e-3 if gen[0] == "jakes" and gen[1] else 1.0, gen,
+                           with_initial_pathloss(pl, hist), ant=ant, N=N)
 
 
 def fam_scale(tier):
@@ -1323,9 +1689,10 @@ def fam_scale(tier):
     for (w, ant, N, sw) in configs:
         for gen in GENS:
             for Ts in (1e-9, 1.0):
-                for prof in (P_WIDE, P_WIDEC, P_MIX):
+                for prof in (P_WIDE, P_WIDEC, P_MIX, P_ZERO):
                     for amp in (1e-12, 1e12):
-                        for pl in ((None,) if w.startswith("tdl") else ("tiny", "one")):
+                        for pl in ((None,) if w.startswith("tdl") else
+                                   (("tiny", "one") if prof is not P_ZERO else ("zero", "izero", "ione"))):
                             hist = [{"op": "time", "x": ["expo"], "n": 5, "amp": amp},
                                     {"op": "freq", "fft": 8, "sel": slice(1, 7, 2), "blocks": 2, "x": ["ramp"],
                                      "amp": 1.0 / amp},
@@ -1369,20 +1736,22 @@ def fam_sizes(tier):
             hist = [{"op": "time", "x": ["expo2"], "n": n}, {"op": "time", "x": ["ramp"], "n": 5}]
             yield scen("sizes", w, prof, 1e-3 if gen == GENS[0] else 1.0, gen, with_initial_pathloss(pl, hist),
                        ant=ant, N=N, switched=sw)
-    ffts = [15, 16, 17, 31, 32, 33, 64, 127, 128, 129, 1023, 1024, 1025, 4097]
+    ffts = [1, 2, 3, 15, 16, 17, 31, 32, 33, 64, 127, 128, 129, 1023, 1024, 1025, 4097]
     for (w, ant, N, sw, pl, gen, prof) in configs:
         for fft in ffts:
             for sel in (None, slice(1, None, 3), np.array([fft - 1, 0, fft // 2])):
                 for blocks in (1, 3):
                     if sel is None and fft > 200 and (blocks > 1 or ant is not None):
                         continue
+                    if not selection_bins(fft, sel):
+                        continue            # a selection of no bin is outside the domain
                     hist = [{"op": "freq", "fft": fft, "sel": sel, "blocks": blocks, "x": ["expo"]},
                             {"op": "time", "x": ["ramp"], "n": 3}]
                     yield scen("sizes", w, prof, 1e-3 if gen == GENS[0] else 1.0, gen,
                                with_initial_pathloss(pl, hist), ant=ant, N=N, switched=sw)
 
 
-FAMILIES = (("events", fam_events), ("scale", fam_scale), ("dtype", fam_dtype), ("sizes", fam_sizes),
+FAMILIES = (("multi", fam_multi), ("long", fam_long), ("events", fam_events), ("scale", fam_scale), ("dtype", fam_dtype), ("sizes", fam_sizes),
             ("forms", fam_forms), ("longm", fam_longm), ("lin", fam_lin), ("ploss", fam_ploss),
             ("cost", fam_cost), ("time", fam_time), ("freq", fam_freq), ("hist", fam_hist),
             ("time_pairs", fam_time_pairs))
@@ -1412,7 +1781,7 @@ def main(chk: Check):
     all_t = list(t_cases(tier))          # built once; the forked workers share it
 
     def worker(i, n, c):
-        for k, case in enumerate(itertools.chain(d_cases(tier), d_cases_scale(tier))):
+        for k, case in enumerate(itertools.chain(d_cases(tier), d_cases_scale(tier), e_cases(tier))):
             if k % n == i:
                 run_case(case, c)
         for case in all_t[i::n]:
